@@ -278,12 +278,31 @@ func Point(desc string, obj any, alts func() int) int {
 
 func one() int { return 1 }
 
-// Yield is a bare scheduling point ("this call takes time").
+// Yield is a bare scheduling point ("this call takes time"). In passthrough mode with
+// VERIF_FREE_RUN set (the auxiliary -race pass) it yields the processor pseudo-randomly
+// (seeded by VERIF_SEED) so that free-running goroutines actually interleave.
 func Yield(tag string) {
 	if S != nil {
 		S.point(&Op{kind: opSimple, Desc: "yield " + tag, alts: one})
+		return
+	}
+	if freeRun {
+		n := atomic.AddUint64(&freeCtr, 0x9E3779B97F4A7C15)
+		if (n^freeSeed)>>61 < 3 {
+			runtime.Gosched()
+		}
 	}
 }
+
+var (
+	freeRun  = os.Getenv("VERIF_FREE_RUN") != ""
+	freeCtr  uint64
+	freeSeed = func() uint64 {
+		var s uint64 = 1
+		fmt.Sscan(os.Getenv("VERIF_SEED"), &s)
+		return s * 0xBF58476D1CE4E5B9
+	}()
+)
 
 // Aborting reports whether the current execution is being torn down (operations become
 // no-ops so that deferred functions can unwind).
